@@ -45,30 +45,8 @@ def run(ctx) -> None:
     ctx.check(not bad and npaths > 0, "C09.N2.one-to-one-in-order", "OperandsParser.parse_operands", ";".join(sorted(set(bad)))[:200],
               "the normalised operand list is a 1:1, order-preserving map of the split list (no filter/sort/slice)")
     # N3 split regex
-    lp = ctx.p.find_class("LineParser")
-    m = lp.find_method("get_splitted_operands")
-
-    def thunk2(I):
-        return I.call_func(m, [], {"operands": Str((Hole("OPERANDS", "text", True),))}, None, None, None)
-    for p in I.explore(thunk2):
-        v = p.value if p.kind == "return" else None
-        pat = v.flags.get("resplit") if isinstance(v, AbsList) else None
-        ok = False
-        why = f"result {v!r}"[:80]
-        if pat is not None and not v.flags.get("extra_args") and "OPERANDS" in v.src:
-            ast = rx.parse(pat)
-            items = rx.seq_items(ast)
-            if len(items) == 2 and isinstance(items[0], rx.Char) and items[0].c == "," and isinstance(items[1], rx.Group) \
-                    and items[1].kind == "nla":
-                inner = rx.seq_items(items[1].body)
-                ok = (len(inner) == 2 and isinstance(inner[0], rx.Rep) and inner[0].lo == 0 and inner[0].hi is None
-                      and isinstance(rx.unwrap(inner[0].body), rx.Cls) and rx.excludes(rx.unwrap(inner[0].body), "(")
-                      and all(rx.can_match_char(rx.unwrap(inner[0].body), c) for c in "%,)0x1-$rax ")
-                      and isinstance(inner[1], rx.Char) and inner[1].c == ")")
-            why = pat
-        ctx.check(ok, "C09.N3.split-regex", "LineParser.get_splitted_operands", why,
-                  "operands are split at every ',' that is not followed by [^(]* ')' (i.e. not inside parentheses), "
-                  "on the whole operand text, without a split limit")
+    from ._parser import split_rule
+    split_rule(ctx, "C09.N3.split-regex", I)
     # N4 every line's operands come from that line
     from ._parser import lines_parsed_independently
     lines_parsed_independently(ctx, "C09.N4.lines-parsed-independently")
